@@ -16,6 +16,8 @@ A Spec provides:
 """
 from __future__ import annotations
 
+import os
+
 from . import run
 from .canon import digest
 
@@ -74,6 +76,9 @@ def _expand(batch):
                     viols.append({"sig": sig, "case": {"history": h2}, "detail": detail})
                 continue  # a violating transition is not expanded further
             k = digest(spec.key(S))
+            if hasattr(spec, "expandable") and not spec.expandable(op):
+                out.append((None, k, digest(after)))
+                continue
             if j == 0:
                 # determinism test: rebuild the same history, same fingerprint
                 S2 = replay(spec, hist)
@@ -116,6 +121,7 @@ def bfs(spec, ctx, max_depth, batch=8, state_cap=None):
     closure = False
     capped = False
     samples = []
+    terminal = set()
     while frontier:
         if depth >= max_depth:
             break
@@ -131,10 +137,15 @@ def bfs(spec, ctx, max_depth, batch=8, state_cap=None):
                 per_op[k_] = per_op.get(k_, 0) + n_
             for h2, k, mk in out:
                 model_states.add(mk)
-                if k not in seen:
+                if h2 is None:
+                    terminal.add(k)
+                elif k not in seen:
                     seen[k] = depth + 1
                     nxt.append(h2)
         depth += 1
+        if os.environ.get("VERIF_VERBOSE"):
+            print("  [bfs %s] depth %d: states %d, frontier %d, transitions %d, violations %d" % (
+                getattr(spec, "name", ""), depth, len(seen), len(nxt), transitions, len(viols)), flush=True)
         if nxt and len(samples) < 4:
             samples.append(nxt[len(nxt) // 2])
         frontier = nxt
@@ -154,6 +165,7 @@ def bfs(spec, ctx, max_depth, batch=8, state_cap=None):
     c["initial_states"] = c.get("initial_states", 0) + ninit
     c.setdefault("bfs_runs", []).append(
         {"name": getattr(spec, "name", type(spec).__name__), "states": len(seen), "transitions": transitions,
+         "terminal_states_checked_not_expanded": len(terminal - set(seen)),
          "closure_reached": closure, "depth_completed": depth, "state_cap_hit": capped,
          "per_operation_transitions": per_op})
     c["closure_reached"] = closure and c.get("closure_reached", True)
